@@ -166,3 +166,15 @@ prop('C12', units=['ls'], level='proof', relevant=r'^unit::vfs::',
                   'std::fs::read_to_string is a function of the path (disk_read), HashMap<FilePath, String> obeys vstd\'s key model (FilePath: derived Eq/Hash over PathBuf)',
                   'ide::file_system::resolve_include_file stores what FileSystem::read_content returns (file_system.rs: `fs.read_content(&candidate)` then `db.set_file_content(file_id, ..)`; not re-verified here)',
                   'the call of Vfs::set_open_document in Server::set_file_content is NOT covered by a contract (see explanation); Server::set_file_content itself is verified for absence of panics only, under "the lock is not poisoned"'])
+
+prop('C13', units=['dg'], level='proof',
+     explanation=('Unit DG (the merge step only): Verus proves on the real text of ide::handlers::diagnostics::exec that the per-file map of diagnostics contains, for EVERY file of the workspace '
+                  '(root or included), every syntax error of that file\'s parse, filed under that file with the error\'s range; every diagnostic of the indexer, filed under the file it lies in; '
+                  'an entry (possibly empty) for every workspace file; and that every stored diagnostic sits under its own file (the grouping unit LS assumes when it converts them). The closure '
+                  'that builds a syntax diagnostic is moved out and verified (file = the file whose parse is walked, range = the error\'s range). NOT decided (the larger part of C13): that a '
+                  'well-formed program produces no diagnostic and that each semantic fault (undefined names, template-argument and type mismatches, operator arity) is diagnosed at the faulty site - '
+                  'that is the type checker spread over the indexer (can_be_casted_to, check_template_args conditions, bang_operator.rs), a whole-program judgement outside function contracts.'),
+     assumptions=['Verus/Z3/rustc sound; extraction faithful (round-trip audit); --no-trait-conflicts',
+                  'the database answers are functions of the revision: source_root().iter_files() = ws_files, parse(f).errors() = syntax_errors(f), index().diagnostics() = index_diags (uninterpreted; two calls of iter_files yield the same sequence)',
+                  'R14 helpers (assumed): Vec::extend over slice.iter().map(closure) appends closure(e) for every e in order; extend over iter().cloned() appends the slice; HashMap entry(k).or_insert_with(Vec::new) + push appends under k; iter_files() is collected into a Vec to be walked with a specified iterator',
+                  'FileRange::new / Diagnostic::new are plain constructors; FileId obeys the HashMap key model'])
